@@ -36,9 +36,9 @@ def mir_check(text, ref):
 
 CHECKS["C05"] = mir_check("Necessary conditions of all-or-nothing decided over the MIR of both drivers and cmd_push: rollback of the failing patch precedes any save and ends the loop; "
     "the drivers return applied + skipped == len (checked arithmetic proved safe with Enumerate::next modelled); applied-patches receives exactly series[0..applied], only on Ok; "
-    "rejects only for the rejected patch; the parallel stop test is strict. Tree equality on disk is outside (file I/O); in-memory undo is C04.", "DESIGN.md §2 C05")
+    "rejects only for the rejected patch; the parallel stop test is strict; every parallel worker rolls the failing patch back before it saves, whether or not one of its own file patches failed. Tree equality on disk is outside (file I/O); in-memory undo is C04.", "DESIGN.md §2 C05")
 CHECKS["C08"] = mir_check("Backup window decided for all 64-bit final_patch / backup-count values over the MIR of both drivers: the backup block runs iff !dry_run && (always || (onfail && stopped early)), "
-    "down_to_index == final_patch -. n (All => 0), no backup below the window, a rename gets two backups, applied-patches gets exactly the applied prefix. Bytes under .pc/** are I/O: outside.", "DESIGN.md §2 C08")
+    "down_to_index == final_patch -. n (All => 0), no backup below the window, a rename gets two backups, applied-patches gets exactly the applied prefix; a backup gets the file's permissions through set_permissions before its content is written. Bytes under .pc/** are I/O: outside.", "DESIGN.md §2 C08")
 CHECKS["C10"] = mir_check("Guard lemma: a fixpoint over the MIR call graph computes the functions that may reach a file-system writing primitive although dry_run is true; "
     "each driver leaves that set only when z3 shows every call into it unreachable under dry_run == true (and reachable without it). Outcome equality with a real run is outside.", "DESIGN.md §2 C10")
 CHECKS["C15"] = mir_check("Ordering lemma on save_modified_file's MIR: every path reaching File::create for a file that existed has called remove_file before, which succeeded or failed with NotFound, and nothing else "
@@ -47,7 +47,7 @@ CHECKS["C15"] = mir_check("Ordering lemma on save_modified_file's MIR: every pat
 CHECKS["C15"]["engine"] = "kani+mirvc"
 CHECKS["C15"]["note"] = KANI_NOTE + " " + MIR_NOTE
 CHECKS["C18"] = mir_check("Ok-continuation lemma: applied-patches is written only when the driver returned Ok, an Err never becomes Ok in cmd_push, and main returns status 0 only for Ok(true). "
-    "That every individual write error is propagated needs syscall fault injection: outside this technique.", "DESIGN.md §2 C18")
+    "BufWriters are flushed explicitly before Ok; the workers' errors are checked before Ok; the output functions never use Write::write (short writes). That every individual write error is propagated needs syscall fault injection: outside this technique (scenario replays induce EFBIG / ENOTDIR / dangling links).", "DESIGN.md §2 C18")
 CHECKS["C13"] = dict(level="model_checking", engine="kani+mirvc",
     text="Guards decided over MIR: a reject file is created only for a file patch of the rejected patch whose report failed; the reject pass returns Ok only when the stack top no longer belongs to the rejected patch (no arm leaves the loop early); "
          "the failing patch's other file patches are still attempted by every worker and later ones are not; rollback and rejects precede save. Writer (Kani): write_rej_to's output for one failed one-line hunk with symbolic bytes is exactly the file header, "
@@ -81,7 +81,7 @@ CHECKS["C11"] = kani_check("Every sub-parser on fully symbolic buffers (<= 12 by
 CHECKS["C12"] = dict(level="model_checking", engine="kani+mirvc",
     text="Hunk level only. (i) header: start lines {0,1,9,10,98,99} x empty/non-empty sides through the real formatter are parsed back to the same start lines and counts (Kani); the start-line arithmetic of write_header_to composed with "
          "parse_hunk's target_line is the identity for EVERY 64-bit value (function summaries over MIR composed in z3). (ii') body: for hunks with <= 1 line per side (<= 2 in the thorough tier) and symbolic bytes the records write_to emits are, in order, "
-         "exactly the old and the new sequence, a context record only for a line equal on both sides (Kani, record scan; with C01's lemma 1 this gives write-then-parse). File headers, the parser round trip on symbolic bytes and larger hunks are outside (stated in the evidence).",
+         "exactly the old and the new sequence, a context record only for a line equal on both sides (Kani, record scan; with C01's lemma 1 this gives write-then-parse). File headers: only the mode lines (a mode the file patch carries gets its line, whatever the other side's mode is: MIR VC, replayed through reject files); names, hashes and keywords, the parser round trip on symbolic bytes and larger hunks are outside (stated in the evidence).",
     technique="bounded model checking (Kani/CBMC) of the hunk writer; SMT-composed function summaries over MIR for the start-line arithmetic", ref="DESIGN.md §2 C12, §11", note=KANI_NOTE + " " + MIR_NOTE)
 
 CHECKS["C16"] = dict(level="model_checking", engine="kani+mirvc",
